@@ -276,8 +276,10 @@ def decide_sites(ctx, rule, sites, Dz, all_wire=False):
             for ent in (_SITES_REF.get(top, []) if sg else []):
                 if not _sig_sim(sg, ent['sig']):
                     continue
-                if not (ent['fn'] == s.body.name or ('{closure#' not in ent['fn'] and top == ent['fn'])):
-                    continue                      # an entry written for a closure (its parameter is the operand) is not one for the parent
+                if not (ent['fn'] == s.body.name or ('{closure#' not in ent['fn'] and top == ent['fn'])
+                        or ('{closure#' in ent['fn'] and '{closure#' in s.body.name and ent['fn'].split('::{closure#')[0] == top)):
+                    continue                      # an entry written for a closure (its parameter is the operand) is not one for the parent;
+                                                  # it is one for the same closure under another ordinal (closures moved / a helper's closures re-attached)
                 idx = next((i for i, e in enumerate(TABLE) if e[0] == ent['fn'] and e[1] == ent['rx']), None)
                 if idx is None:
                     continue
